@@ -41,6 +41,8 @@ DEVIATIONS = (
     [("imp", "Main", v) for v in ([], ["sub/"], ["./sub"], ["sub", "."], ["nodir"], ["sub", "nodir"])] +
     [("nomod", w, True) for w in ("A", "B", "C")] +        # component file without the module import: Qt classes are not visible *there*
     [("ver", w, v) for w in ("A", "B", "C", "Main") for v in (["module"], ["string"], ["module", "string"])] +
+    [("opt", None, "no-lowercase")] +                      # --no-lowercase-file-name: the file-name rule keeps the case
+    [("link", w, k) for w in ("A", "B", "C") for k in ("symlink", "hardlink")] +      # the component file is a link to a regular file
     [("use", None, u) for u in ([], ["A"], ["B"], ["C"], ["A", "A"], ["A", "B", "A"], ["B", "C", "B", "C"], ["C", "B", "A"])]
 )
 
@@ -56,6 +58,10 @@ def apply(layout, devs):
             l["use"] = list(val)
         elif kind == "nomod":
             l.setdefault("nomodule", []).append(who)
+        elif kind == "opt":
+            l.setdefault("options", []).append(val)
+        elif kind == "link":
+            l.setdefault("links", {})[who] = val
         elif kind == "ver":
             l.setdefault("versions", {})[who] = list(val)     # versioned imports: the version is ignored (warning)
     return l
@@ -72,6 +78,8 @@ def layouts(tier):
             continue        # quick: versioned imports pair up in their combined form only
         if tier != "thorough" and any(x[0] == "nomod" for x in (a, b)) and not any(x[0] == "root" for x in (a, b)):
             continue        # quick: a file without the module import pairs up with root-type deviations only
+        if tier != "thorough" and any(x[0] in ("opt", "link") for x in (a, b)) and not any(x[0] in ("root", "use") for x in (a, b)):
+            continue        # quick: the option and linked files pair up with root-type and instantiation deviations only
         yield (a, b)
     if tier == "thorough":
         menu = [d for d in DEVIATIONS if d[0] == "root" or (d[0] == "imp" and d[2] in ([], ["nodir"]))]
@@ -97,11 +105,23 @@ def write_project(root, layout):
     shutil.rmtree(root, ignore_errors=True)
     os.makedirs(os.path.join(root, "sub"))
     os.makedirs(os.path.join(root, "other"))
+    os.makedirs(os.path.join(root, "store"))
     paths = {}
     for name in ("A", "B", "C", "Main"):
         rel = os.path.normpath(os.path.join(DIRS[name], name + ".qml"))
-        with open(os.path.join(root, rel), "w") as f:
-            f.write(file_text(name, layout))
+        link = layout.get("links", {}).get(name)
+        if link:
+            # the text lives in store/<name>.data (not a .qml name, not an imported directory)
+            real = os.path.join(root, "store", name + ".data")
+            with open(real, "w") as f:
+                f.write(file_text(name, layout))
+            if link == "symlink":
+                os.symlink(os.path.relpath(real, os.path.dirname(os.path.join(root, rel))), os.path.join(root, rel))
+            else:
+                os.link(real, os.path.join(root, rel))
+        else:
+            with open(os.path.join(root, rel), "w") as f:
+                f.write(file_text(name, layout))
         paths[name] = rel
     return paths
 
@@ -181,8 +201,9 @@ def source_model(src, layout):
 
 # --------------------------------------------------------------------------- execution
 
-def run(root, args, timeout=60):
-    cmd = [vc.QMLUIC_BIN, "generate-ui", "--foreign-types", vc.METATYPES] + args
+def run(root, args, timeout=60, options=()):
+    cmd = [vc.QMLUIC_BIN, "generate-ui", "--foreign-types", vc.METATYPES] + \
+        (["--no-lowercase-file-name"] if "no-lowercase" in options else []) + args
     try:
         p = subprocess.run(cmd, cwd=root, env=dict(os.environ, NO_COLOR="1"), stdout=subprocess.PIPE,
                            stderr=subprocess.PIPE, timeout=timeout)
@@ -191,9 +212,11 @@ def run(root, args, timeout=60):
         return "timeout", ""
 
 
-def outputs_of(root, rel):
+def outputs_of(root, rel, options=()):
     d = os.path.dirname(rel)
-    stem = os.path.splitext(os.path.basename(rel))[0].lower()
+    stem = os.path.splitext(os.path.basename(rel))[0]
+    if "no-lowercase" not in options:
+        stem = stem.lower()
     out = {}
     for fn in (stem + ".ui", "uisupport_" + stem + ".h"):
         p = os.path.join(root, d, fn)
@@ -216,10 +239,12 @@ def judge_layout(t, scratch, lid, devs):
     t.inc("layouts")
     t.distinct.add(json.dumps(devs))
     sources = ["Main", "A", "B"]
+    options = tuple(layout.get("options", []))
+    keep_case = "no-lowercase" in options
     alone = {}
     for s in sources:
         clean_outputs(root)
-        rc, err = run(root, [paths[s]])
+        rc, err = run(root, [paths[s]], options=options)
         t.inc("cli_runs")
         if rc == "timeout":
             t.violation("termination:single-source", dict(case, source=s))
@@ -227,7 +252,7 @@ def judge_layout(t, scratch, lid, devs):
         if rc not in (0, 1):
             t.violation(f"crash:exit-{rc}", dict(case, source=s, stderr=err[-300:]))
             return
-        alone[s] = (rc, outputs_of(root, paths[s]))
+        alone[s] = (rc, outputs_of(root, paths[s], options))
         m = source_model(s, layout)
         acc = rc == 0
         if m is not None:
@@ -237,7 +262,8 @@ def judge_layout(t, scratch, lid, devs):
                             dict(case, source=s, stderr=err[-400:]))
                 continue
         if acc:
-            ui = alone[s][1][os.path.splitext(os.path.basename(paths[s]))[0].lower() + ".ui"]
+            stem_ = os.path.splitext(os.path.basename(paths[s]))[0]
+            ui = alone[s][1][(stem_ if keep_case else stem_.lower()) + ".ui"]
             if ui is None:
                 t.violation("outputs:accepted-without-ui", dict(case, source=s))
                 continue
@@ -258,7 +284,7 @@ def judge_layout(t, scratch, lid, devs):
                 for c, e, h in listed:
                     if c in want and e != want[c]:
                         t.violation("customwidgets:extends-is-not-the-root-class", dict(case, source=s, listed=listed, expected=want))
-                    if h != c.lower() + ".h":
+                    if h != (c if keep_case else c.lower()) + ".h":
                         t.violation("customwidgets:header", dict(case, source=s, listed=listed))
                 if s == "Main" and layout.get("props"):
                     # instances accepted the base-class property
@@ -271,7 +297,7 @@ def judge_layout(t, scratch, lid, devs):
     for k in range(2, len(sources) + 1):
         for arr in itertools.permutations(sources, k):
             clean_outputs(root)
-            rc, err = run(root, [paths[s] for s in arr])
+            rc, err = run(root, [paths[s] for s in arr], options=options)
             t.inc("cli_runs")
             t.inc("arrangements")
             if rc == "timeout":
@@ -282,7 +308,7 @@ def judge_layout(t, scratch, lid, devs):
                 continue
             failed = False
             for s in arr:
-                got = outputs_of(root, paths[s])
+                got = outputs_of(root, paths[s], options)
                 arc, aout = alone[s]
                 if failed:
                     want = {k2: None for k2 in aout}
